@@ -44,7 +44,7 @@ ASSUMPTIONS = [
     "generated functors never destroy a trackable they are bound to (finding F6 is out of scope of C11)",
 ]
 PARTIAL = [
-    "T&& parameters (finding F7): C11.ref_identity is proved for positions declared T, T&, const T& through every "
+    "T&& parameters (finding F8): C11.ref_identity is proved for positions declared T, T&, const T& through every "
     "adaptor chain, and for T&& through chains of forwarding call operators (C11.rref_forwarders). It is FALSE for a "
     "T&& parameter that passes bind/hide below a forwarding adaptor, e.g. signal<void(Obj&&,int)> + "
     "hide_return(hide(f)): there T_arg is deduced as Obj, std::tuple<Obj> move-constructs from the emitter's object, "
@@ -54,7 +54,7 @@ PARTIAL = [
 EXPLANATION = ("theorems quantify over all adaptor expressions, argument lists and slot lists; the sampled "
                "correspondence bounds: 1-4 signal parameters, 1-3 slots, adaptor chains of depth 0-3 (+compose2 branch), "
                "1-3 bound values of kinds value/std::ref/std::cref")
-F7 = ("F7 rvalue-reference signal parameter is moved-from and copied by bind/hide nested under a forwarding adaptor "
+F8 = ("F8 rvalue-reference signal parameter is moved-from and copied by bind/hide nested under a forwarding adaptor "
       "(e.g. signal<void(Obj&&,int)>, hide_return(hide(f))): target receives a copy, later slots see the moved-from object")
 
 CORPUS = os.path.join(common.VERIF, "corpus", "C11")
@@ -164,7 +164,7 @@ def classify(cases, results):
         if impl is None:
             continue
         base = {"input": r["line"], "impl": impl, "model": r["model"], "case": c, "cxx": cxx_of(c)}
-        known = F7 if ag.c11_f7(c) else None
+        known = F8 if ag.c11_f7(c) else None
         if impl.startswith("nocompile:"):
             d = dict(base)
             d["detail"] = "a well-typed signal/adaptor combination is rejected by the compiler: %s [%s]" % (
